@@ -156,6 +156,28 @@ def raised_class(prog, fi, raise_node):
     return prog.resolve_in_module(fi.module, txt)
 
 
+def enclosing_condition(cfg, node):
+    """(terms, tests): the tests of the `if`/`while` statements enclosing
+    `node`, negated for an else-arm, outermost first; `tests` are the raw
+    test expressions.  Unlike the dominating branch outcomes this keeps
+    disjunctions (`if a and not (b and c)`) intact."""
+    terms, tests = [], []
+    child, p = node, cfg.parent.get(id(node))
+    while p is not None and not isinstance(p, (ast.FunctionDef, ast.AsyncFunctionDef, ast.Lambda)):
+        if isinstance(p, ast.If):
+            if any(child is s for s in p.body):
+                terms.append(p.test)
+                tests.append(p.test)
+            elif any(child is s for s in p.orelse):
+                terms.append(ast.UnaryOp(op=ast.Not(), operand=p.test))
+                tests.append(p.test)
+        elif isinstance(p, ast.While) and any(child is s for s in p.body):
+            terms.append(p.test)
+            tests.append(p.test)
+        child, p = p, cfg.parent.get(id(p))
+    return list(reversed(terms)), list(reversed(tests))
+
+
 def flatten(e, op):
     """Operands of nested BoolOps of kind `op` (ast.And / ast.Or)."""
     if isinstance(e, ast.BoolOp) and isinstance(e.op, op):
